@@ -134,7 +134,7 @@ impl Prop for C01Prop {
         "C01"
     }
     fn rule(&self) -> String {
-        "Streams: sigma3 = every sequence of 3 lexemes over the 109-lexeme alphabet; sigma2sep = every pair x {\"\", \" \", newline} separators x 4 configurations; random (proptest tapes): token soup, arbitrary UTF-8 text, lossy-decoded bytes, mutated/spliced repository seeds, directive-heavy and nested inputs, each x generated configuration; cli = 4-24 seed files formatted in place by one invocation of the real binary (1-4 worker threads), each file judged separately. Oracle: the sequences of non-blank characters (blank = <= U+0020 or U+3000) of input and output have equal length and agree position-wise up to ASCII case; where the case differs, the input letter lies (per the independent reference scanner) in a word token equal to one of the 122 keywords and became lower case, or in the name of a `{$` / `(*$` directive token and became upper case. Non-trivial = at least 2 tokens and output != input; distinct by hash of (input, configuration)."
+        "Streams: sigma3 = every sequence of 3 lexemes over the 109-lexeme alphabet; sigma2sep = every pair x {\"\", \" \", newline} separators x 4 configurations; random (proptest tapes): token soup, arbitrary UTF-8 text, lossy-decoded bytes, mutated/spliced repository seeds, directive-heavy and nested inputs, each x generated configuration; cli = 4-24 seed files plus up to two 66-200 kB files dense in multi-byte characters, formatted in place by one invocation of the real binary (1-4 worker threads), each file judged separately. Oracle: the sequences of non-blank characters (blank = <= U+0020 or U+3000) of input and output have equal length and agree position-wise up to ASCII case; where the case differs, the input letter lies (per the independent reference scanner) in a word token equal to one of the 122 keywords and became lower case, or in the name of a `{$` / `(*$` directive token and became upper case. Non-trivial = at least 2 tokens and output != input; distinct by hash of (input, configuration)."
             .into()
     }
     fn assumptions(&self) -> Vec<String> {
@@ -149,7 +149,7 @@ impl Prop for C01Prop {
             Stream::random("any_chk", if q { 1000 } else { 10000 }, 400).chk(),
             Stream::random("big", if q { 40 } else { 1500 }, 3000),
             // the same oracle through the real binary: several files in one invocation
-            Stream::random("cli", if q { 6 } else { 60 }, 64),
+            Stream::random("cli", if q { 6 } else { 60 }, 160),
         ];
         if !q {
             v.push(Stream::exhaustive("sigma4", soup::space_size(4)));
@@ -161,8 +161,21 @@ impl Prop for C01Prop {
         let cfg = Cfg::gen(t);
         if stream == "cli" {
             let all = crate::gen::seeds::texts();
+            let mut big: Vec<String> = vec![];
+            // large files dense in multi-byte characters (the output is written in pieces by the
+            // I/O layer; every alignment of a character against a piece boundary should occur)
+            for _ in 0..t.below(3) {
+                let pad = "x".repeat(t.below(4) as usize);
+                let line = *t.pick(&[
+                    "  S  :=  'äöü'  +  Größe ;   //  注释注释注释注释注释注释注释注释注释注释注释注释\n",
+                    "Foo( 'ЖЖЖЖЖЖЖЖЖЖЖЖ' ,  Ünïcödé ) ; { 😀😀😀😀😀😀😀😀😀😀😀😀😀😀😀😀 }\n",
+                    "//日本語日本語日本語日本語日本語日本語日本語日本語日本語日本語日本語日本語日本語\n",
+                ]);
+                let reps = (66_000 + t.below(140_000) as usize) / line.len() + 1;
+                big.push(format!("{pad};\n{}", line.repeat(reps)));
+            }
             let n = 4 + t.below(20);
-            let files: Vec<String> = (0..n)
+            let mut files: Vec<String> = (0..n)
                 .map(|_| {
                     let mut s = all[t.below(all.len() as u32) as usize].1.clone();
                     if t.chance(1, 3) {
@@ -171,6 +184,7 @@ impl Prop for C01Prop {
                     s
                 })
                 .collect();
+            files.extend(big);
             let mut c = Case::text("cli", String::new(), cfg);
             c.extra = serde_json::json!({"cli_files": files, "threads": *t.pick(&[1, 1, 2, 4])});
             return Some(c);
